@@ -107,6 +107,12 @@ def cases(tier, seed):
                     for timer in ('run', 'stop'):
                         yield dict(role=role, state=state, event=event, var=var, timer=timer,
                                    route='assign')
+                    # the same cell with a transport that fails the moment the action writes:
+                    # the provider loop answers a socket error inside an action with "transport
+                    # connection closed" in the SAME state, which is only right if the action
+                    # has had no other effect by then
+                    yield dict(role=role, state=state, event=event, var=var, timer='run',
+                               route='assign', wfail=True)
         for hname in HIST[role]:
             pending = hname.endswith('p')
             for event in rm.EVENTS:
@@ -239,10 +245,42 @@ def run_case(case):
         had_buf = hasattr(prov, 'raw_pdu') and isinstance(prov.raw_pdu, (bytes, bytearray))
         if had_buf:
             prov.raw_pdu = marker
+        wrote = []
+        if case.get('wfail') and prov.dul_socket is not None:
+            sock_ = prov.dul_socket
+
+            def failing_sendall(data, _s=sock_):
+                wrote.append(len(data))
+                raise ConnectionResetError(104, 'Connection reset by peer')
+            sock_.sendall = failing_sendall
         try:
             sm.action(getattr(fsm.Events, 'EVT_' + event[3:]))
         except Exception as e:  # pylint: disable=broad-except
             exc = e
+        if case.get('wfail'):
+            if prov.dul_socket is not None and 'sendall' in vars(prov.dul_socket):
+                del prov.dul_socket.sendall
+            if not wrote:
+                # the action did not write: nothing to learn here beyond the plain cell
+                return res
+            inds_ = rig.take_indications()
+            bad_ = []
+            if not isinstance(exc, OSError):
+                bad_.append('write-error-swallowed')
+            if inds_:
+                bad_.append('indication-despite-failed-write')
+            if prov.timer._start_time != t_before:
+                bad_.append('artim-touched-despite-failed-write')
+            if rig.state() != state:
+                bad_.append('state-changed-despite-failed-write')
+            res['digest'] = rig.sim.digest.hexdigest() + repr(bad_)
+            for b in bad_:
+                res['violations'].append({
+                    'sig': 'C04 cell=(%s,%s) role=%s action=%s mismatch=%s' % (
+                        state, event, role, exp['action'] if exp else 'undefined', b),
+                    'detail': 'case %r\nexpected %r\nexception %r indications %r' % (
+                        case, exp, exc, [_ik(x) for x in inds_])})
+            return res
         rig.wire_take()
         wire = rig.wire_bytes[wire0:]
         inds = rig.take_indications()
